@@ -126,7 +126,7 @@ def render_const(op):
 
 
 class Table:
-    def __init__(self, prog, body, max_paths=50000, inline=0, _stack=(), start=0, stop=(), state=(), opaque=()):
+    def __init__(self, prog, body, max_paths=50000, inline=0, _stack=(), start=0, stop=(), state=(), opaque=(), only=None):
         """inline = n: calls of small loop-free functions / closures of the workspace are expanded up to n levels deep (their rows are
         multiplied into the caller's paths, with the callee's parameters replaced by the caller's arguments); `bool::then_some` and
         derived `PartialEq::eq` against an enum constant are modelled.  inline = 0 keeps every call opaque (the default)."""
@@ -135,6 +135,7 @@ class Table:
         self.max_paths = max_paths
         self.inline = inline or 0
         self.opaque = tuple(opaque)      # short names of callees that are never expanded (the classified inputs of a table)
+        self.only = tuple(only) if only is not None else None     # if given: the only callees (short names) that are expanded
         self._stack = _stack + (body.npath,)
         # region tables: paths begin at block `start` and end at a return or on reaching a block in `stop` (e.g. a loop header: one
         # iteration of the loop body); the result of such a path is the tuple of the values of the locals listed in `state`
@@ -218,8 +219,16 @@ class Table:
 
         def rep(m):
             i = int(m.group(1))
-            return self._raw(args[i - 1]) if 1 <= i <= len(args) else m.group(0)
-        return _re.sub(r"\barg(\d+)\b", rep, text)
+            if not 1 <= i <= len(args):
+                return m.group(0)
+            v = args[i - 1]
+            rest = [x for x in m.group(2).split(".") if x]
+            # `argN.k` where the argument is a tuple / struct built by the caller: the k-th component itself
+            while rest and v.kind == "agg" and int(rest[0]) < len(v.a[2]):
+                v = v.a[2][int(rest[0])]
+                rest = rest[1:]
+            return self._raw(v) + "".join("." + x for x in rest)
+        return _re.sub(r"\barg(\d+)\b((?:\.\d+\b)*)", rep, text)
 
     def _subst_val(self, v, args):
         if v.kind == "const":
@@ -296,12 +305,12 @@ class Table:
             return [([("is", key, "Some")], Val("const", yes), (), ()), ([("is", key, "None")], Val("const", not yes), (), ())]
         # small loop-free workspace function / closure
         cb = self.prog.body(nm)
-        if short in self.opaque:
+        if short in self.opaque or (self.only is not None and short not in self.only):
             return None
         if cb is None or cb.npath in self._stack or len(cb.loops()) or len(cb.blocks) > 80 or not cb.crate.startswith("pasfmt"):
             return None
         try:
-            sub = Table(self.prog, cb, max_paths=256, inline=self.inline - 1, _stack=self._stack, opaque=self.opaque)
+            sub = Table(self.prog, cb, max_paths=256, inline=self.inline - 1, _stack=self._stack, opaque=self.opaque, only=self.only)
         except TooComplex:
             return None
         if not sub.rows or len(sub.rows) > 64:
